@@ -10,6 +10,7 @@ import (
 	"regexp"
 	"regexp/syntax"
 	"strings"
+	"unicode"
 )
 
 // C10_NO_EXCLUSIONS=1 switches every known-finding exclusion off (used to validate a candidate fix: the full
@@ -25,7 +26,19 @@ func stripCapture(re *syntax.Regexp) *syntax.Regexp {
 
 func isPlainLiteral(re *syntax.Regexp) bool {
 	re = stripCapture(re)
-	return re.Op == syntax.OpLiteral && re.Flags&syntax.FoldCase == 0
+	if re.Op != syntax.OpLiteral {
+		return false
+	}
+	if re.Flags&syntax.FoldCase == 0 {
+		return true
+	}
+	// text without letters under (?i) ("(?i)[11]", "(?i)-1"): case folding changes nothing, the index takes it as plain text too
+	for _, r := range re.Rune {
+		if unicode.SimpleFold(r) != r {
+			return false
+		}
+	}
+	return true
 }
 
 func isAnchorOp(op syntax.Op) bool {
